@@ -23,6 +23,29 @@ CHECKS = {
     note='Facet grid (fixed list of customised types) and text alphabets are bounds listed in evidence. The reference '
          'semantics of facets is transcribed from XML Schema Part 2. lxml parsing itself is outside (the stub carries the '
          'text; the native replay uses real lxml elements).'),
+ 'C03': dict(
+    cat='model_checking', ref='DESIGN.md section 4 (C03)',
+    text='_s2cmi is checked as one inductive step from an arbitrary valid map (n entries, arbitrary sparse keys, arbitrary '
+         'new index). The real simple_dict_to_object runs on flat documents whose bracket indexes and values are symbolic '
+         'digits (sparse, two-digit vs one-digit, nested arrays), so every key order / index assignment inside the bound is '
+         'covered by the solver; flat round trip and primitive return bytes with symbolic leaves.',
+    note='Universes (class shapes) are a fixed small list; n <= 3 array elements, 1-2 digit indexes. Percent-decoding and form '
+         'parsing (urllib/werkzeug) are outside the claim.'),
+ 'C09': dict(
+    cat='model_checking', ref='DESIGN.md section 4 (C09)',
+    text='fault_to_http_response_code for 16 fault classes x 6 protocols with a symbolic fault code; the exception funnel '
+         '(process_request/get_out_object/serialize of the dict-document family) with symbolic code/message/detail/secret; '
+         'Soap12.gen_fault_codes with symbolic dotted codes. z3 proves the status table, field preservation and '
+         'absence of the secret for all strings inside the bound.',
+    note='XML/SOAP fault *elements* are built by lxml and are outside the solver part (covered concretely by the pipeline harness '
+         'of C14 where present). Code strings <= 9 chars, messages 4 chars, secrets 6 chars.'),
+ 'C13': dict(
+    cat='model_checking', ref='DESIGN.md section 4 (C13)',
+    text='The bounded body reader runs with symbolic max_content_length, block_length, CONTENT_LENGTH (absent/empty/any '
+         'integer text) and a PEP-3333 stream stub returning any 0 <= r <= n bytes per read; z3 proves the read budget, '
+         'non-negative request sizes, refusal before the first read and no spurious refusal, for streams of <= 3 chunks.',
+    note='Unwinding bound: at most 3 non-empty chunks per request. The response-side part of the property (start_response '
+         'protocol, context close) is exercised by the pipeline harness.'),
 }
 
 NOT_APPLICABLE = {
